@@ -233,11 +233,15 @@ class _RwZipStorage(Storage):
         return [info.filename for info in self.zipfile.infolist()]
 
     def _content_matches(self, zf, path, content):
-        info = zf.getinfo(path)
-        entry_content = zf.read(info)
-        if entry_content == content:
-            return True
-        return False
+        try:
+            entry_content = zf.read(zf.getinfo(path))
+        except KeyError:
+            # not in this zipfile: entries waiting in the buffer (an existing
+            # zip opened for appending) count, too.
+            if self.bufferzip is None or zf is self.bufferzip:
+                raise
+            entry_content = self.bufferzip.read(path)
+        return entry_content == content
 
     def _generate_filename(self, zf, path, content):
         try:
